@@ -396,6 +396,20 @@ Proof.
   intros H. induction l as [|x l IH]; cbn [map all_some]; [reflexivity|]. rewrite H, IH. reflexivity.
 Qed.
 
+Lemma all_some_map_nth {A B} (f : A -> option B) (l : list A) : forall rs,
+  all_some (map f l) = Some rs ->
+  length rs = length l /\
+  forall i x, nth_error l i = Some x -> exists y, nth_error rs i = Some y /\ f x = Some y.
+Proof.
+  induction l as [|a l IH]; intros rs H; cbn [map] in H.
+  - injection H as <-. split; [reflexivity|]. intros [|i] x Hx; discriminate.
+  - apply all_some_cons in H as (y & ys & Hy & Hys & ->). destruct (IH ys Hys) as [L N].
+    split; [cbn; rewrite L; reflexivity|].
+    intros [|i] x Hx; cbn [nth_error] in *.
+    + injection Hx as <-. exists y. split; [reflexivity|exact Hy].
+    + apply N, Hx.
+Qed.
+
 Lemma rcp_of_item r : rcp_of (rcp_item r) = Some r.
 Proof. destruct r; reflexivity. Qed.
 
@@ -661,6 +675,22 @@ Section CryptoProofs.
     rewrite extract_sec_params by exact Hsc.
     unfold check_secblk. cbn [a_params a_results]. rewrite nodupb_sec_params, N.
     cbn [cose_ctx_id N.eqb Pos.eqb andb]. exact V.
+  Qed.
+
+  (** Pairing invariant of a BIB the source builds: the target list is the
+      list of operations in the order given, there is one result per target,
+      and result i is the one computed for target i.  ([verify_targets] pairs
+      them the same way, which is why the unaltered block verifies.) *)
+  Theorem bib_pairing kind kg protected unprot b sec source s addl au targets a :
+    apply_bib_asb kind kg protected unprot b sec source s addl au targets = Some a ->
+    a_targets a = targets /\ length (a_results a) = length (a_targets a) /\
+    forall i t, nth_error (a_targets a) i = Some t ->
+      exists rs, nth_error (a_results a) i = Some rs /\
+                 apply_bib_target kind kg protected unprot b sec source s addl t = Some rs.
+  Proof.
+    unfold BpSec.apply_bib_asb. destruct (all_some _) as [rss|] eqn:E; [|discriminate].
+    intros H. injection H as <-. cbn [a_targets a_results].
+    destruct (all_some_map_nth _ _ _ E) as [L N]. repeat split; assumption.
   Qed.
 
   (** the same on the octets of the security block, when they decode *)
